@@ -6287,345 +6287,1299 @@ impl TryRInto_SpanZoneOffset for ri128 {
     fn try_rinto(self, what: &'static str) -> (res: Result<ri32, Error>) { verif_try_rfrom_SpanZoneOffset_128(self) }
 }
 
-pub assume_specification[ i32::checked_shl ](x: i32, n: u32) -> (r: Option<i32>)
-    ensures n < 32 ==> r == Some(x << n), n >= 32 ==> r.is_none();
-// the pointer-sized word: jiff stores small kinds directly in the pointer bits via
-// without_provenance / addr (strict-provenance API; src/tz/timezone.rs mod polyfill).  Trusted model:
-// addr(without_provenance(a)) == a.
+// ---- include lib/rangeint_ext_isoweek.vrs ----
+// Hand-written extension of the rangeint model (lib/rangeint.vrs) for unit `isoweek`.
+// Same style as the generated file: `#[verifier::external_body]` + exact `ensures` (release-mode meaning of src/util/rangeint.rs);
+// every external_body spec is an obligation for Kani on the real operation.  Functions WITH a body are verified here (nothing new is trusted).
+
+// ---- (I1) aliases of src/util/t.rs missing from gen_rangeint.py's ALIASES:
+//           ISOYear = ri16<-9999, 9999> (t.rs:151), ISOWeek = ri8<1, 53> (t.rs:153), WeekdayZero = ri8<0, 6> (t.rs:137), WeekdayOne = ri8<1, 7> (t.rs:140)
+pub type ISOYear = ri16;
+pub open spec fn ISOYear_MIN() -> int { -9999 }
+pub open spec fn ISOYear_MAX() -> int { 9999 }
+pub open spec fn in_ISOYear(v: int) -> bool { -9999 <= v <= 9999 }
+pub type ISOWeek = ri8;
+pub open spec fn ISOWeek_MIN() -> int { 1 }
+pub open spec fn ISOWeek_MAX() -> int { 53 }
+pub open spec fn in_ISOWeek(v: int) -> bool { 1 <= v <= 53 }
+pub type WeekdayZero = ri8;
+pub open spec fn in_WeekdayZero(v: int) -> bool { 0 <= v <= 6 }
+pub type WeekdayOne = ri8;
+pub open spec fn in_WeekdayOne(v: int) -> bool { 1 <= v <= 7 }
+
+// ---- (I2) `ISOYear::try_new("what", v)` / `ISOWeek::try_new("what", v)`: Ok iff v lies within the alias's MIN..=MAX (same shape as the generated verif_try_new_<Alias>)
 #[verifier::external_body]
-#[derive(Clone, Copy)]
-pub struct Ptr { _p: () }
-impl Ptr {
-    pub uninterp spec fn a(&self) -> usize;
-    #[verifier::external_body]
-    pub fn addr(&self) -> (r: usize) ensures r == self.a() { unimplemented!() }
-}
+pub fn verif_try_new_ISOYear(v: i64) -> (res: Result<ri16, Error>)
+    ensures res.is_ok() <==> in_ISOYear(v as int), res.is_ok() ==> res.unwrap().val == v
+{ unimplemented!() }
 #[verifier::external_body]
-pub fn without_provenance(addr: usize) -> (r: Ptr) ensures r.a() == addr { unimplemented!() }
-impl Ptr {
-    // strict-provenance API (mod polyfill): map_addr(f) = with_addr(f(addr))
-    #[verifier::external_body]
-    pub fn map_addr<F: FnOnce(usize) -> usize>(&self, f: F) -> (r: Ptr)
-        requires f.requires((self.a(),)),
-        ensures f.ensures((self.a(),), r.a())
-    { unimplemented!() }
-    #[verifier::external_body]
-    pub fn cast<T>(&self) -> (r: TPtr<T>) ensures r.a() == self.a() { unimplemented!() }
+pub fn verif_try_new_ISOWeek(v: i64) -> (res: Result<ri8, Error>)
+    ensures res.is_ok() <==> in_ISOWeek(v as int), res.is_ok() ==> res.unwrap().val == v
+{ unimplemented!() }
+
+// ---- (I3) `ISOYear::MIN` / `ISOYear::MAX` (associated consts of type i128; same shape as the generated verif_MIN_<Alias>) and
+//           `ISOYear::MAX_SELF` (src/util/rangeint.rs:104: `Self::new_unchecked(Self::MAX_REPR)`)
+pub fn verif_MIN_ISOYear() -> (r: i128) ensures r == ISOYear_MIN() { -9999 }
+pub fn verif_MAX_ISOYear() -> (r: i128) ensures r == ISOYear_MAX() { 9999 }
+#[allow(non_snake_case)]
+pub fn verif_MAX_SELF_ISOYear() -> (r: ri16) ensures r.val == ISOYear_MAX() { ri16 { val: 9999 } }
+
+// ---- include lib/greg.vrs ----
+// Proleptic Gregorian calendar, defined from first principles (property C01).
+// Nothing in this file comes from jiff's code.
+pub open spec fn is_leap(y: int) -> bool { y % 4 == 0 && (y % 100 != 0 || y % 400 == 0) }
+pub open spec fn dim(y: int, m: int) -> int {
+    if m == 2 { if is_leap(y) { 29 } else { 28 } }
+    else if m == 4 || m == 6 || m == 9 || m == 11 { 30 } else { 31 }
 }
-#[verifier::external_body]
-#[verifier::reject_recursive_types(T)]
-pub struct TPtr<T> { _p: core::marker::PhantomData<T> }
-impl<T> TPtr<T> { pub uninterp spec fn a(&self) -> usize; }
-#[verifier::external_body] pub struct TzifOwned { _p: () }
-#[verifier::external_body] pub struct PosixTimeZoneOwned { _p: () }
-/// ghost protocol: `addr` is the data pointer of a live `Arc<T>` (as returned by Arc::into_raw)
-pub uninterp spec fn is_live_arc<T>(addr: usize) -> bool;
-pub struct Arc {}
-impl Arc {
-    // safety contract of std::sync::Arc::{increment,decrement}_strong_count: the pointer must have been obtained
-    // through Arc::<T>::into_raw (same T, hence also aligned for T) and the Arc must still be live
-    #[verifier::external_body]
-    pub fn increment_strong_count<T>(p: TPtr<T>) requires p.a() % 8 == 0, is_live_arc::<T>(p.a()) { unimplemented!() }
-    #[verifier::external_body]
-    pub fn decrement_strong_count<T>(p: TPtr<T>) requires p.a() % 8 == 0, is_live_arc::<T>(p.a()) { unimplemented!() }
+pub open spec fn diy(y: int) -> int { if is_leap(y) { 366 } else { 365 } }
+pub open spec fn valid_ymd(y: int, m: int, d: int) -> bool {
+    1 <= m <= 12 && 1 <= d <= dim(y, m)
 }
-pub struct Repr { pub ptr: Ptr }
-impl Repr {
-    /// C20 representation invariant of a handle: the low three bits are one of the six tags; for the Arc-backed kinds the
-    /// remaining bits are the 8-aligned data pointer of a live Arc of the matching type (how Repr::arc_tzif / arc_posix build it)
-    pub open spec fn rwf(&self) -> bool {
-        let a = self.ptr.a();
-        let tag = a & 7usize;
-        &&& tag <= 5
-        &&& (tag == 4 ==> exists|base: usize| base % 8 == 0 && #[trigger] is_live_arc::<TzifOwned>(base) && a == base + 4)
-        &&& (tag == 5 ==> exists|base: usize| base % 8 == 0 && #[trigger] is_live_arc::<PosixTimeZoneOwned>(base) && a == base + 5)
+pub open spec fn in_range_ymd(y: int, m: int, d: int) -> bool {
+    -9999 <= y <= 9999 && valid_ymd(y, m, d)
+}
+// successor of a date, component-wise
+pub open spec fn next_y(y: int, m: int, d: int) -> int { if d == dim(y, m) && m == 12 { y + 1 } else { y } }
+pub open spec fn next_m(y: int, m: int, d: int) -> int { if d == dim(y, m) { if m == 12 { 1 } else { m + 1 } } else { m } }
+pub open spec fn next_d(y: int, m: int, d: int) -> int { if d == dim(y, m) { 1 } else { d + 1 } }
+pub open spec fn prev_y(y: int, m: int, d: int) -> int { if d == 1 && m == 1 { y - 1 } else { y } }
+pub open spec fn prev_m(y: int, m: int, d: int) -> int { if d == 1 { if m == 1 { 12 } else { m - 1 } } else { m } }
+pub open spec fn prev_d(y: int, m: int, d: int) -> int { if d == 1 { dim(prev_y(y, m, d), prev_m(y, m, d)) } else { d - 1 } }
+
+// Closed form of "days since 1970-01-01".  lemma_rd_epoch + lemma_rd_succ show it is THE
+// Gregorian day count (the unique function that is 0 at the epoch and +1 on successor).
+pub open spec fn rd(y: int, m: int, d: int) -> int {
+    let yy = if m <= 2 { y - 1 } else { y };
+    let mm = if m <= 2 { m + 12 } else { m };
+    365 * yy + yy / 4 - yy / 100 + yy / 400 + (153 * (mm - 3) + 2) / 5 + d - 1 - 719468
+}
+#[verifier::spinoff_prover]
+pub proof fn lemma_rd_epoch()
+    ensures rd(1970, 1, 1) == 0, rd(-9999, 1, 1) == -4371587, rd(9999, 12, 31) == 2932896,
+{}
+/// (153(mm-3)+2)/5 for the shifted month number mm = 3..14 (March..February)
+pub open spec fn moff(mm: int) -> int {
+    if mm == 3 { 0 } else if mm == 4 { 31 } else if mm == 5 { 61 } else if mm == 6 { 92 } else if mm == 7 { 122 } else if mm == 8 { 153 }
+    else if mm == 9 { 184 } else if mm == 10 { 214 } else if mm == 11 { 245 } else if mm == 12 { 275 } else if mm == 13 { 306 } else { 337 }
+}
+#[verifier::spinoff_prover]
+pub proof fn lemma_moff(mm: int)
+    requires 3 <= mm <= 14,
+    ensures (153 * (mm - 3) + 2) / 5 == moff(mm),
+{
+    if mm == 3 {} else if mm == 4 {} else if mm == 5 {} else if mm == 6 {} else if mm == 7 {} else if mm == 8 {}
+    else if mm == 9 {} else if mm == 10 {} else if mm == 11 {} else if mm == 12 {} else if mm == 13 {} else {}
+}
+/// stepping from y-1 to y changes floor(y/k) by one exactly when k divides y
+#[verifier::spinoff_prover]
+pub proof fn lemma_div_step(y: int, k: int)
+    requires k > 1,
+    ensures y / k - (y - 1) / k == (if y % k == 0 { 1int } else { 0int }),
+{
+    let q = y / k; let r = y % k;
+    vstd::arithmetic::div_mod::lemma_fundamental_div_mod(y, k);
+    vstd::arithmetic::div_mod::lemma_mod_bound(y, k);
+    assert(y == k * q + r && 0 <= r < k);
+    if r == 0 {
+        assert(y - 1 == (q - 1) * k + (k - 1)) by (nonlinear_arith) requires y == k * q + r, r == 0;
+        vstd::arithmetic::div_mod::lemma_fundamental_div_mod_converse(y - 1, k, q - 1, k - 1);
+    } else {
+        assert(y - 1 == q * k + (r - 1)) by (nonlinear_arith) requires y == k * q + r;
+        vstd::arithmetic::div_mod::lemma_fundamental_div_mod_converse(y - 1, k, q, r - 1);
     }
 }
-pub proof fn lemma_untag(base: usize, tag: usize, a: usize)
-    requires base % 8 == 0, tag <= 7, a == base + tag,
-    ensures (a & !7usize) == base, (a & 7usize) == tag,
+#[verifier::spinoff_prover]
+pub proof fn lemma_divides_chain(y: int, a: int, b: int)
+    requires a > 0, b > 0, y % (a * b) == 0,
+    ensures y % a == 0,
 {
-    assert(base % 8 == 0 && tag <= 7 ==> ((base | tag) & !7usize) == base && ((base | tag) & 7usize) == tag) by (bit_vector);
-    assert(base % 8 == 0 && tag <= 7 ==> (base | tag) == base + tag) by (bit_vector);
+    let q = y / (a * b);
+    assert(a * b > 0) by (nonlinear_arith) requires a > 0, b > 0;
+    vstd::arithmetic::div_mod::lemma_fundamental_div_mod(y, a * b);
+    assert(y == (q * b) * a + 0) by (nonlinear_arith) requires y == (a * b) * q + y % (a * b), y % (a * b) == 0;
+    vstd::arithmetic::div_mod::lemma_fundamental_div_mod_converse(y, a, q * b, 0);
 }
-impl Repr {
-    pub const BITS: usize = 0b111;
-    pub const UTC: usize = 1;
-    pub const UNKNOWN: usize = 2;
-    pub const FIXED: usize = 3;
-    pub const STATIC_TZIF: usize = 0;
-    pub const ARC_TZIF: usize = 4;
-    pub const ARC_POSIX: usize = 5;
+/// how the three leap-year quotients change from y-1 to y
+#[verifier::spinoff_prover]
+pub proof fn lemma_leap_step(y: int)
+    ensures y / 4 - (y - 1) / 4 == (if y % 4 == 0 { 1int } else { 0int }),
+            y / 100 - (y - 1) / 100 == (if y % 100 == 0 { 1int } else { 0int }),
+            y / 400 - (y - 1) / 400 == (if y % 400 == 0 { 1int } else { 0int }),
+            y % 400 == 0 ==> y % 100 == 0, y % 100 == 0 ==> y % 4 == 0,
+{
+    lemma_div_step(y, 4); lemma_div_step(y, 100); lemma_div_step(y, 400);
+    if y % 400 == 0 { lemma_divides_chain(y, 100, 4); }
+    if y % 100 == 0 { lemma_divides_chain(y, 4, 25); }
 }
-#[derive(Clone, Copy)]
-pub struct Offset { pub s: i32 }
-impl Offset {
-    pub open spec fn wf(&self) -> bool { -93599 <= self.s <= 93599 }
-    pub fn seconds_ranged(self) -> (r: SpanZoneOffset) ensures r.val == self.s { ri32 { val: self.s } }
-    pub fn from_seconds_ranged(seconds: SpanZoneOffset) -> (r: Offset) ensures r.s == seconds.val { Offset { s: seconds.val } }
+/// rd with the month term replaced by the table
+pub open spec fn rd_lin(y: int, m: int, d: int) -> int {
+    let yy = if m <= 2 { y - 1 } else { y };
+    let mm = if m <= 2 { m + 12 } else { m };
+    365 * yy + yy / 4 - yy / 100 + yy / 400 + moff(mm) + d - 1 - 719468
 }
-/// C20: tags of the pointer-free kinds are pairwise distinct and differ from the pointer tags
-pub proof fn lemma_tags_distinct()
-    ensures Repr::UTC != Repr::UNKNOWN, Repr::UTC != Repr::FIXED, Repr::UNKNOWN != Repr::FIXED,
-            Repr::UTC != Repr::STATIC_TZIF, Repr::UTC != Repr::ARC_TZIF, Repr::UTC != Repr::ARC_POSIX,
-            Repr::UNKNOWN != Repr::STATIC_TZIF, Repr::UNKNOWN != Repr::ARC_TZIF, Repr::UNKNOWN != Repr::ARC_POSIX,
-            Repr::FIXED != Repr::STATIC_TZIF, Repr::FIXED != Repr::ARC_TZIF, Repr::FIXED != Repr::ARC_POSIX,
-            Repr::STATIC_TZIF != Repr::ARC_TZIF, Repr::STATIC_TZIF != Repr::ARC_POSIX, Repr::ARC_TZIF != Repr::ARC_POSIX,
-            Repr::UTC <= Repr::BITS, Repr::UNKNOWN <= Repr::BITS, Repr::FIXED <= Repr::BITS, Repr::ARC_TZIF <= Repr::BITS, Repr::ARC_POSIX <= Repr::BITS,
+#[verifier::spinoff_prover]
+pub proof fn lemma_rd_lin(y: int, m: int, d: int)
+    requires 1 <= m <= 12,
+    ensures rd(y, m, d) == rd_lin(y, m, d),
+{
+    lemma_moff(if m <= 2 { m + 12 } else { m });
+}
+#[verifier::spinoff_prover]
+pub proof fn lemma_rd_succ(y: int, m: int, d: int)
+    requires valid_ymd(y, m, d),
+    ensures valid_ymd(next_y(y, m, d), next_m(y, m, d), next_d(y, m, d)),
+            rd(next_y(y, m, d), next_m(y, m, d), next_d(y, m, d)) == rd(y, m, d) + 1,
+{
+    lemma_rd_lin(y, m, d);
+    lemma_rd_lin(next_y(y, m, d), next_m(y, m, d), next_d(y, m, d));
+    lemma_leap_step(y);
+}
+#[verifier::spinoff_prover]
+pub proof fn lemma_rd_pred(y: int, m: int, d: int)
+    requires valid_ymd(y, m, d),
+    ensures valid_ymd(prev_y(y, m, d), prev_m(y, m, d), prev_d(y, m, d)),
+            rd(prev_y(y, m, d), prev_m(y, m, d), prev_d(y, m, d)) == rd(y, m, d) - 1,
+{
+    lemma_rd_lin(y, m, d);
+    lemma_rd_lin(prev_y(y, m, d), prev_m(y, m, d), prev_d(y, m, d));
+    lemma_leap_step(y);
+}
+// day-of-year (1-based) and its relation to rd
+pub open spec fn days_before_month(y: int, m: int) -> int
+    decreases m
+{
+    if m <= 1 { 0 } else { days_before_month(y, m - 1) + dim(y, m - 1) }
+}
+pub open spec fn doy(y: int, m: int, d: int) -> int { days_before_month(y, m) + d }
+pub open spec fn dbm_tab(y: int, m: int) -> int {
+    let l = if is_leap(y) { 1int } else { 0int };
+    if m == 1 { 0 } else if m == 2 { 31 } else if m == 3 { 59 + l } else if m == 4 { 90 + l } else if m == 5 { 120 + l } else if m == 6 { 151 + l }
+    else if m == 7 { 181 + l } else if m == 8 { 212 + l } else if m == 9 { 243 + l } else if m == 10 { 273 + l } else if m == 11 { 304 + l } else { 334 + l }
+}
+#[verifier::spinoff_prover]
+pub proof fn lemma_dbm(y: int, m: int)
+    requires 1 <= m <= 12,
+    ensures days_before_month(y, m) == dbm_tab(y, m),
+    decreases m
+{
+    if m > 1 { lemma_dbm(y, m - 1); }
+}
+#[verifier::spinoff_prover]
+pub proof fn lemma_doy_rd(y: int, m: int, d: int)
+    requires 1 <= m <= 12,
+    ensures rd(y, m, d) == rd(y, 1, 1) + doy(y, m, d) - 1,
+{
+    lemma_dbm(y, m);
+    lemma_rd_lin(y, m, d);
+    lemma_rd_lin(y, 1, 1);
+    lemma_leap_step(y);
+}
+#[verifier::spinoff_prover]
+pub proof fn lemma_rd_year(y: int)
+    ensures rd(y + 1, 1, 1) == rd(y, 1, 1) + diy(y),
+{
+    lemma_rd_lin(y, 1, 1); lemma_rd_lin(y + 1, 1, 1);
+    lemma_leap_step(y);
+}
+// rd is strictly monotone in (y,m,d) lexicographic order on valid dates => injective.
+#[verifier::spinoff_prover]
+pub proof fn lemma_rd_month_mono(y: int, m1: int, d1: int, m2: int, d2: int)
+    requires valid_ymd(y, m1, d1), valid_ymd(y, m2, d2), m1 < m2,
+    ensures rd(y, m1, d1) < rd(y, m2, d2),
+{
+    lemma_doy_rd(y, m1, d1); lemma_doy_rd(y, m2, d2);
+    lemma_dbm(y, m1); lemma_dbm(y, m2);
+}
+#[verifier::spinoff_prover]
+pub proof fn lemma_rd_year_mono(y1: int, y2: int)
+    requires y1 <= y2,
+    ensures rd(y2, 1, 1) - rd(y1, 1, 1) >= 365 * (y2 - y1),
+    decreases y2 - y1
+{
+    if y1 < y2 { lemma_rd_year_mono(y1, y2 - 1); lemma_rd_year(y2 - 1); }
+}
+#[verifier::spinoff_prover]
+pub proof fn lemma_rd_mono(y1: int, m1: int, d1: int, y2: int, m2: int, d2: int)
+    requires valid_ymd(y1, m1, d1), valid_ymd(y2, m2, d2),
+             y1 < y2 || (y1 == y2 && (m1 < m2 || (m1 == m2 && d1 < d2))),
+    ensures rd(y1, m1, d1) < rd(y2, m2, d2),
+{
+    if y1 < y2 {
+        lemma_doy_rd(y1, m1, d1); lemma_doy_rd(y2, m2, d2);
+        lemma_rd_year_mono(y1 + 1, y2); lemma_rd_year(y1);
+        lemma_dbm(y1, m1); lemma_dbm(y2, m2);
+    } else if m1 < m2 {
+        lemma_rd_month_mono(y1, m1, d1, m2, d2);
+    }
+}
+#[verifier::spinoff_prover]
+pub proof fn lemma_rd_inj(y1: int, m1: int, d1: int, y2: int, m2: int, d2: int)
+    requires valid_ymd(y1, m1, d1), valid_ymd(y2, m2, d2), rd(y1, m1, d1) == rd(y2, m2, d2),
+    ensures y1 == y2 && m1 == m2 && d1 == d2,
+{
+    if y1 < y2 || (y1 == y2 && (m1 < m2 || (m1 == m2 && d1 < d2))) { lemma_rd_mono(y1, m1, d1, y2, m2, d2); }
+    else if y2 < y1 || (y1 == y2 && (m2 < m1 || (m1 == m2 && d2 < d1))) { lemma_rd_mono(y2, m2, d2, y1, m1, d1); }
+}
+// ISO weekday 1=Monday..7=Sunday of day number e; day 0 (1970-01-01) is a Thursday (4), cyclic successor.
+pub open spec fn wd(e: int) -> int { (e + 3) % 7 + 1 }
+#[verifier::spinoff_prover]
+pub proof fn lemma_wd()
+    ensures wd(0) == 4, forall|e: int| #[trigger] wd(e + 1) == (if wd(e) == 7 { 1int } else { wd(e) + 1 }),
 {}
-/// the encoding of a fixed offset into the pointer word
-pub open spec fn enc_fixed(s: i32) -> usize { (((s << 4u32) as usize) | 3usize) }
-pub proof fn lemma_fixed_roundtrip(s: i32)
-    requires -93599 <= s <= 93599,
-    ensures ((enc_fixed(s) as i32) >> 4u32) == s, (enc_fixed(s) & 7usize) == 3usize,
+
+// ---- lemmas over plain integers used by the units (moved here from itime_views.vrs so that units without the itime structs can include them)
+pub open spec fn nth_first_day(y: int, m: int, w: int) -> int { 1 + (w - wd(rd(y, m, 1))) % 7 }
+pub open spec fn nth_last_day(y: int, m: int, w: int) -> int { dim(y, m) - (wd(rd(y, m, dim(y, m))) - w) % 7 }
+/// x == 7*q + r with 0 <= r < 7 determines x % 7
+#[verifier::spinoff_prover]
+pub proof fn lemma_mod7(x: int, q: int, r: int)
+    requires x == 7 * q + r, 0 <= r < 7,
+    ensures x % 7 == r,
 {
-    assert(-93599 <= s <= 93599 ==> ((((((s << 4u32) as usize) | 3usize)) as i32) >> 4u32) == s) by (bit_vector);
-    assert(((((s << 4u32) as usize) | 3usize) & 7usize) == 3usize) by (bit_vector);
+    assert(x == q * 7 + r);
+    vstd::arithmetic::div_mod::lemma_fundamental_div_mod_converse(x, 7, q, r);
+}
+#[verifier::spinoff_prover]
+pub proof fn lemma_wd_arith(e: int, w: int, k: int)
+    requires 1 <= w <= 7,
+    ensures wd(e + (w - wd(e)) % 7 + 7 * k) == w, wd(e - (wd(e) - w) % 7 - 7 * k) == w,
+            0 <= (w - wd(e)) % 7 <= 6, 0 <= (wd(e) - w) % 7 <= 6,
+{
+    let a = (e + 3) % 7; let q = (e + 3) / 7;
+    vstd::arithmetic::div_mod::lemma_fundamental_div_mod(e + 3, 7);
+    vstd::arithmetic::div_mod::lemma_mod_bound(e + 3, 7);
+    assert(e + 3 == 7 * q + a && 0 <= a < 7 && wd(e) == a + 1);
+    // forward
+    let x1 = w - wd(e); let t1 = x1 % 7; let p1 = x1 / 7;
+    vstd::arithmetic::div_mod::lemma_fundamental_div_mod(x1, 7);
+    vstd::arithmetic::div_mod::lemma_mod_bound(x1, 7);
+    assert(x1 == 7 * p1 + t1 && 0 <= t1 < 7);
+    lemma_mod7(e + t1 + 7 * k + 3, q + k - p1, w - 1);
+    // backward
+    let x2 = wd(e) - w; let t2 = x2 % 7; let p2 = x2 / 7;
+    vstd::arithmetic::div_mod::lemma_fundamental_div_mod(x2, 7);
+    vstd::arithmetic::div_mod::lemma_mod_bound(x2, 7);
+    assert(x2 == 7 * p2 + t2 && 0 <= t2 < 7);
+    lemma_mod7(e - t2 - 7 * k + 3, q - k + p2, w - 1);
+}
+#[verifier::spinoff_prover]
+pub proof fn lemma_nth_day(y: int, m: int, w: int, k: int)
+    requires 1 <= m <= 12, 1 <= w <= 7,
+    ensures 1 <= nth_first_day(y, m, w) <= 7, wd(rd(y, m, nth_first_day(y, m, w) + 7 * k)) == w,
+            0 <= dim(y, m) - nth_last_day(y, m, w) <= 6, wd(rd(y, m, nth_last_day(y, m, w) - 7 * k)) == w,
+{
+    let e1 = rd(y, m, 1);
+    let e2 = rd(y, m, dim(y, m));
+    lemma_wd_arith(e1, w, k);
+    lemma_wd_arith(e2, w, k);
+    assert(rd(y, m, nth_first_day(y, m, w) + 7 * k) == e1 + (w - wd(e1)) % 7 + 7 * k);
+    assert(rd(y, m, nth_last_day(y, m, w) - 7 * k) == e2 - (wd(e2) - w) % 7 - 7 * k);
+}
+#[verifier::spinoff_prover]
+pub proof fn lemma_rd_bounds(y: int, m: int, d: int)
+    requires in_range_ymd(y, m, d),
+    ensures -4371587 <= rd(y, m, d) <= 2932896,
+            (rd(y, m, d) == -4371587 <==> (y == -9999 && m == 1 && d == 1)),
+            (rd(y, m, d) == 2932896 <==> (y == 9999 && m == 12 && d == 31)),
+{
+    lemma_rd_epoch();
+    if !(y == -9999 && m == 1 && d == 1) { lemma_rd_mono(-9999, 1, 1, y, m, d); }
+    if !(y == 9999 && m == 12 && d == 31) { lemma_rd_mono(y, m, d, 9999, 12, 31); }
+}
+#[verifier::spinoff_prover]
+pub proof fn lemma_year_of_rd(y: int, m: int, d: int)
+    requires valid_ymd(y, m, d),
+    ensures rd(y, 1, 1) <= rd(y, m, d) < rd(y + 1, 1, 1),
+{
+    lemma_doy_rd(y, m, d); lemma_rd_year(y);
+    lemma_dbm(y, m);
+}
+
+#[verifier::rlimit(200)]
+#[verifier::spinoff_prover]
+pub proof fn lemma_mulshift(k: u64)
+    requires k <= 36524,
+    ensures ({ let n = 4 * k + 3; (2939745 * n) / 4294967296 == n / 1461 }),
+            ({ let n = 4 * k + 3; ((2939745 * n) % 4294967296) / 2939745 / 4 == (n % 1461) / 4 }),
+{
+    assert(k <= 36524 ==> ({ let n = (4 * k + 3) as u64; (2939745 * n) / 4294967296 == n / 1461 })) by (bit_vector);
+    assert(k <= 36524 ==> ({ let n = (4 * k + 3) as u64; ((2939745 * n) % 4294967296) / 2939745 / 4 == (n % 1461) / 4 })) by (bit_vector);
+}
+#[verifier::spinoff_prover]
+pub proof fn lemma_month(ny: u32)
+    requires ny < 366,
+    ensures ({
+        let n3 = 2141 * ny + 197913;
+        let m = n3 / 65536;
+        let d = (n3 % 65536) / 2141;
+        3 <= m <= 14 && d <= 30 && ny as int == (153 * (m as int - 3) + 2) / 5 + d as int
+        && (m == 14 ==> d <= 28) && ((m == 4 || m == 6 || m == 9 || m == 11) ==> d <= 29)
+        && (ny >= 306 <==> m >= 13) && (m == 14 && d == 28 ==> ny == 365)
+    }),
+{
+    assert(ny < 366 ==> ({
+        let n3 = (2141 * ny + 197913) as u32;
+        let m = n3 / 65536;
+        let d = (n3 % 65536) / 2141;
+        3 <= m && m <= 14 && d <= 30 && ny == (153 * (m - 3) + 2) / 5 + d
+        && (m == 14 ==> d <= 28) && ((m == 4 || m == 6 || m == 9 || m == 11) ==> d <= 29)
+        && (ny >= 306 <==> m >= 13) && (m == 14 && d == 28 ==> ny == 365)
+    })) by (bit_vector);
+}
+// q = (4n+3)/P, r = ((4n+3)%P)/4 with P = 4p+1  ==> n == p*q + q/4 + r, and (r == p ==> q%4 == 3)
+#[verifier::spinoff_prover]
+pub proof fn lemma_cycle(n: int, p: int)
+    requires n >= 0, p > 0,
+    ensures ({
+        let big = 4 * p + 1;
+        let q = (4 * n + 3) / big;
+        let r = ((4 * n + 3) % big) / 4;
+        n == p * q + q / 4 + r && 0 <= r <= p && (r == p ==> q % 4 == 3)
+    }),
+{
+    let big = 4 * p + 1;
+    let n1 = 4 * n + 3;
+    let q = n1 / big;
+    let r1 = n1 % big;
+    let r = r1 / 4;
+    assert(n1 == big * q + r1) by { vstd::arithmetic::div_mod::lemma_fundamental_div_mod(n1, big); }
+    assert(0 <= r1 < big) by { vstd::arithmetic::div_mod::lemma_mod_bound(n1, big); }
+    let a = q / 4; let b = q % 4;
+    let t = r1 % 4;
+    assert(q == 4 * a + b);
+    assert(r1 == 4 * r + t);
+    assert(big * q == 4 * p * q + q) by (nonlinear_arith) requires big == 4 * p + 1;
+    assert(4 * n + 3 == 4 * (p * q) + 4 * a + b + 4 * r + t) by (nonlinear_arith)
+        requires n1 == big * q + r1, big * q == 4 * p * q + q, q == 4 * a + b, r1 == 4 * r + t, n1 == 4 * n + 3;
+    assert(b + t == 3);
+}
+
+/// the arithmetic heart of Neri-Schneider's to_date, over plain integers
+#[verifier::spinoff_prover]
+pub proof fn lemma_ns_final(e: int, c: int, z: int, ny: int, mm: int, dd: int)
+    requires
+        -4371587 <= e <= 2932896,
+        228 <= c <= 428, 0 <= z <= 99, 0 <= ny <= 365,
+        e + 12699422 == 36524 * c + c / 4 + (365 * z + z / 4 + ny),
+        3 <= mm <= 14, 0 <= dd <= 30,
+        ny == moff(mm) + dd,
+        mm == 14 ==> dd <= 28, (mm == 4 || mm == 6 || mm == 9 || mm == 11) ==> dd <= 29,
+        (ny >= 306) <==> (mm >= 13),
+        mm == 14 && dd == 28 ==> ny == 365,
+        // ny == 365 only in the last year of a 4-year cycle, and the 4-year cycle's 1461st day only in the last of a 400-year cycle
+        ny == 365 ==> z % 4 == 3,
+        (365 * z + z / 4 + ny) == 36524 ==> c % 4 == 3,
+    ensures ({
+        let yy = 100 * c + z - 32800;
+        let j = if ny >= 306 { 1int } else { 0int };
+        let year = yy + j;
+        let month = if ny >= 306 { mm - 12 } else { mm };
+        let day = dd + 1;
+        -9999 <= year <= 9999 && valid_ymd(year, month, day) && rd(year, month, day) == e
+    }),
+{
+    let yy = 100 * c + z - 32800;
+    let j = if ny >= 306 { 1int } else { 0int };
+    let year = yy + j;
+    let month = if ny >= 306 { mm - 12 } else { mm };
+    let day = dd + 1;
+    let big = 100 * c + z;
+    assert(big / 4 == 25 * c + z / 4);
+    assert(big / 100 == c);
+    assert(big / 400 == c / 4);
+    assert(yy / 4 == big / 4 - 8200);
+    assert(yy / 100 == big / 100 - 328);
+    assert(yy / 400 == big / 400 - 82);
+    lemma_rd_lin(year, month, day);
+    // leap status of the March-based year yy+1 decides whether Feb 29 (mm == 14, dd == 28) exists
+    if mm == 14 && dd == 28 {
+        let y1 = yy + 1;
+        assert(z % 4 == 3);
+        assert(y1 % 4 == 0);
+        if z == 99 { assert((365 * z + z / 4 + ny) == 36524); assert(c % 4 == 3); assert(y1 % 400 == 0); }
+        else { assert(y1 % 100 != 0); }
+    }
+}
+
+#[verifier::external_body]
+pub fn verif_error_range(what: &'static str, given: i8, min: i8, max: i8) -> Error { unimplemented!() }
+
+// ---------------------------------------------------------------- ISO 8601 week calendar (definition; nothing here comes from jiff's code)
+/// day number of the first day of ISO year y: the Monday of the week that contains January 4th
+pub open spec fn iso_year_start(y: int) -> int { rd(y, 1, 4) - (wd(rd(y, 1, 4)) - 1) }
+/// day e belongs to ISO year y
+pub open spec fn in_iso_year(e: int, y: int) -> bool { iso_year_start(y) <= e < iso_year_start(y + 1) }
+/// week number of day e of ISO year y
+pub open spec fn iso_week_of(e: int, y: int) -> int { (e - iso_year_start(y)) / 7 + 1 }
+/// ISO year y has 53 weeks
+pub open spec fn iso_long(y: int) -> bool { iso_year_start(y + 1) - iso_year_start(y) == 371 }
+pub open spec fn iso_weeks(y: int) -> int { if iso_long(y) { 53 } else { 52 } }
+/// day number denoted by the ISO week date y-Ww-d
+pub open spec fn iso_rd(y: int, w: int, d: int) -> int { iso_year_start(y) + 7 * (w - 1) + (d - 1) }
+/// y-Ww-d is an ISO week date that denotes a day of -9999-01-01..=9999-12-31
+pub open spec fn iso_valid(y: int, w: int, d: int) -> bool {
+    -9999 <= y <= 9999 && 1 <= w <= iso_weeks(y) && 1 <= d <= 7 && -4371587 <= iso_rd(y, w, d) <= 2932896
+}
+
+/// the Monday of e's week
+#[verifier::spinoff_prover]
+pub proof fn lemma_monday(e: int)
+    ensures 1 <= wd(e) <= 7, wd(e - (wd(e) - 1)) == 1, e - (wd(e) - 1) == 7 * ((e + 3) / 7) - 3,
+{
+    let q = (e + 3) / 7; let a = (e + 3) % 7;
+    vstd::arithmetic::div_mod::lemma_fundamental_div_mod(e + 3, 7);
+    vstd::arithmetic::div_mod::lemma_mod_bound(e + 3, 7);
+    assert(e + 3 == 7 * q + a && 0 <= a < 7);
+    lemma_mod7(e - a + 3, q, 0);
+}
+/// x is a Monday iff x + 3 is a multiple of 7; days of one week
+#[verifier::spinoff_prover]
+pub proof fn lemma_week(m: int, k: int, j: int)
+    requires wd(m) == 1, 0 <= j <= 6,
+    ensures wd(m + 7 * k + j) == j + 1, (m + 3) % 7 == 0, (7 * k + j) / 7 == k, (7 * k + j) % 7 == j,
+{
+    let q = (m + 3) / 7;
+    vstd::arithmetic::div_mod::lemma_fundamental_div_mod(m + 3, 7);
+    vstd::arithmetic::div_mod::lemma_mod_bound(m + 3, 7);
+    assert(m + 3 == 7 * q);
+    lemma_mod7(m + 7 * k + j + 3, q + k, j);
+    vstd::arithmetic::div_mod::lemma_fundamental_div_mod_converse(7 * k + j, 7, k, j);
+}
+/// the first day of an ISO year is a Monday at most three days away from January 1st
+#[verifier::spinoff_prover]
+pub proof fn lemma_iso_start(y: int)
+    ensures wd(iso_year_start(y)) == 1, rd(y, 1, 1) - 3 <= iso_year_start(y) <= rd(y, 1, 1) + 3,
+            iso_year_start(y) == 7 * ((rd(y, 1, 1) + 6) / 7) - 3,
+{
+    assert(rd(y, 1, 4) == rd(y, 1, 1) + 3);
+    lemma_monday(rd(y, 1, 4));
+}
+/// an ISO year has 364 or 371 days; 371 iff December 31st is a Thursday, or a Friday in a leap year
+#[verifier::spinoff_prover]
+pub proof fn lemma_iso_step(y: int)
+    ensures iso_year_start(y + 1) - iso_year_start(y) == 364 || iso_year_start(y + 1) - iso_year_start(y) == 371,
+            rd(y, 12, 31) == rd(y + 1, 1, 1) - 1,
+            iso_long(y) <==> (wd(rd(y, 12, 31)) == 4 || (is_leap(y) && wd(rd(y, 12, 31)) == 5)),
+{
+    hide(rd);
+    lemma_iso_start(y); lemma_iso_start(y + 1);
+    lemma_rd_year(y);
+    lemma_rd_pred(y + 1, 1, 1);
+    let j = rd(y, 1, 1); let j2 = rd(y + 1, 1, 1);
+    assert(j2 == j + diy(y));
+    assert(rd(y, 12, 31) == j2 - 1);
+    let q = (j + 6) / 7; let a = (j + 6) % 7;
+    vstd::arithmetic::div_mod::lemma_fundamental_div_mod(j + 6, 7);
+    vstd::arithmetic::div_mod::lemma_mod_bound(j + 6, 7);
+    let q2 = (j2 + 6) / 7; let a2 = (j2 + 6) % 7;
+    vstd::arithmetic::div_mod::lemma_fundamental_div_mod(j2 + 6, 7);
+    vstd::arithmetic::div_mod::lemma_mod_bound(j2 + 6, 7);
+    assert(j + 6 == 7 * q + a && j2 + 6 == 7 * q2 + a2);
+    // wd(j2 - 1) = (j2 + 2) % 7 + 1
+    if a2 >= 4 { lemma_mod7(j2 + 2, q2, a2 - 4); } else { lemma_mod7(j2 + 2, q2 - 1, a2 + 3); }
+}
+#[verifier::spinoff_prover]
+pub proof fn lemma_iso_start_mono(y1: int, y2: int)
+    requires y1 <= y2,
+    ensures iso_year_start(y2) - iso_year_start(y1) >= 364 * (y2 - y1),
+    decreases y2 - y1
+{
+    if y1 < y2 { lemma_iso_start_mono(y1, y2 - 1); lemma_iso_step(y2 - 1); }
+}
+/// every day belongs to at most one ISO year
+#[verifier::spinoff_prover]
+pub proof fn lemma_iso_year_unique(e: int, y1: int, y2: int)
+    requires in_iso_year(e, y1), in_iso_year(e, y2),
+    ensures y1 == y2,
+{
+    if y1 < y2 { lemma_iso_start_mono(y1 + 1, y2); }
+    if y2 < y1 { lemma_iso_start_mono(y2 + 1, y1); }
+}
+/// The textbook characterisation: the ISO year of a day is the Gregorian year Y of the Thursday of its week, and its week number is
+/// (ordinal day of that Thursday - 1) / 7 + 1.  (`rd(Y,1,1) <= t < rd(Y+1,1,1)` says that day t lies in Gregorian year Y, lemma_year_of_rd;
+/// t - rd(Y,1,1) is its ordinal day minus one, lemma_doy_rd.)
+#[verifier::spinoff_prover]
+pub proof fn lemma_iso_textbook(e: int, yy: int)
+    requires rd(yy, 1, 1) <= e - wd(e) + 4 < rd(yy + 1, 1, 1),
+    ensures in_iso_year(e, yy), iso_week_of(e, yy) == (e - wd(e) + 4 - rd(yy, 1, 1)) / 7 + 1, wd(e - wd(e) + 4) == 4,
+{
+    hide(rd);
+    lemma_iso_start(yy); lemma_iso_start(yy + 1);
+    lemma_monday(e);
+    let s = iso_year_start(yy); let s2 = iso_year_start(yy + 1);
+    let m = e - (wd(e) - 1);            // Monday of e's week
+    let j = rd(yy, 1, 1); let j2 = rd(yy + 1, 1, 1);
+    let thu = m + 3;
+    assert(thu == e - wd(e) + 4);
+    lemma_week(m, 0, 3);
+    // m, s, s2 are Mondays: m = 7a - 3, s = 7b - 3, s2 = 7c - 3
+    let a = (e + 3) / 7; let b = (j + 6) / 7; let c = (j2 + 6) / 7;
+    assert(m == 7 * a - 3 && s == 7 * b - 3 && s2 == 7 * c - 3);
+    assert(s <= m <= s2 - 7);
+    let k = a - b;
+    assert(m == s + 7 * k && k >= 0);
+    let jj = e - m;
+    lemma_week(s, k, jj);
+    assert((e - s) / 7 == k);
+    // thu - j = 7k + (s + 3 - j) with 0 <= s + 3 - j <= 6
+    lemma_week(s, k, s + 3 - j);
+    assert(thu - j == 7 * k + (s + 3 - j));
+}
+/// the day denoted by a week date of ISO year y lies in ISO year y, in that week, on that weekday
+#[verifier::spinoff_prover]
+pub proof fn lemma_iso_rd_in_year(y: int, w: int, d: int)
+    requires 1 <= w <= iso_weeks(y), 1 <= d <= 7,
+    ensures in_iso_year(iso_rd(y, w, d), y), iso_week_of(iso_rd(y, w, d), y) == w, wd(iso_rd(y, w, d)) == d,
+{
+    lemma_iso_start(y); lemma_iso_step(y);
+    lemma_week(iso_year_start(y), w - 1, d - 1);
+}
+/// conversely: the week date of a day of ISO year y
+#[verifier::spinoff_prover]
+pub proof fn lemma_iso_of_day(e: int, y: int)
+    requires in_iso_year(e, y),
+    ensures 1 <= iso_week_of(e, y) <= iso_weeks(y), 1 <= wd(e) <= 7, iso_rd(y, iso_week_of(e, y), wd(e)) == e,
+            wd(e) - 1 == (e - iso_year_start(y)) % 7,
+{
+    lemma_iso_start(y); lemma_iso_step(y);
+    let s = iso_year_start(y);
+    let k = (e - s) / 7; let j = (e - s) % 7;
+    vstd::arithmetic::div_mod::lemma_fundamental_div_mod(e - s, 7);
+    vstd::arithmetic::div_mod::lemma_mod_bound(e - s, 7);
+    assert(e - s == 7 * k + j && 0 <= j < 7);
+    lemma_week(s, k, j);
+}
+/// the Thursday of the first week of ISO year yy lies in Gregorian year yy
+#[verifier::spinoff_prover]
+pub proof fn lemma_year_of_first_thursday(y: int, m: int, d: int, yy: int)
+    requires valid_ymd(y, m, d), rd(y, m, d) == iso_year_start(yy) + 3,
+    ensures y == yy,
+{
+    lemma_iso_start(yy);
+    let k = iso_year_start(yy) + 3 - rd(yy, 1, 1) + 1;
+    assert(1 <= k <= 7 && rd(yy, 1, k) == rd(yy, 1, 1) + k - 1);
+    lemma_rd_inj(y, m, d, yy, 1, k);
+}
+/// a day of Gregorian year y belongs to ISO year y - 1, y or y + 1, decided by the two comparisons the code makes
+#[verifier::spinoff_prover]
+pub proof fn lemma_iso_year_near(y: int, m: int, d: int)
+    requires valid_ymd(y, m, d),
+    ensures ({
+        let e = rd(y, m, d);
+        &&& (e < iso_year_start(y) ==> in_iso_year(e, y - 1))
+        &&& (iso_year_start(y) <= e < iso_year_start(y + 1) ==> in_iso_year(e, y))
+        &&& (e >= iso_year_start(y + 1) ==> in_iso_year(e, y + 1))
+        &&& iso_year_start(y) <= rd(y, 1, 1) + 3 && iso_year_start(y + 1) >= rd(y + 1, 1, 1) - 3
+    }),
+{
+    hide(rd);
+    lemma_year_of_rd(y, m, d);
+    let e = rd(y, m, d);
+    lemma_iso_start(y - 1); lemma_iso_start(y); lemma_iso_start(y + 1); lemma_iso_start(y + 2);
+    lemma_rd_year(y - 1); lemma_rd_year(y + 1);
+}
+/// which week dates denote a day of the supported range: all of ISO years -9999..=9999 except 9999-W52-6 and 9999-W52-7
+/// (-9999-01-01 is -9999-W01-1; 9999-12-31 is 9999-W52-5; ISO year 9999 has 52 weeks)
+#[verifier::spinoff_prover]
+pub proof fn lemma_iso_range(y: int, w: int, d: int)
+    requires -9999 <= y <= 9999, 1 <= w <= iso_weeks(y), 1 <= d <= 7,
+    ensures (-4371587 <= iso_rd(y, w, d) <= 2932896) <==> !(y == 9999 && w == 52 && d > 5),
+            iso_year_start(-9999) == -4371587, iso_year_start(9999) == 2932535, iso_year_start(10000) == 2932899, !iso_long(9999),
+{
+    assert(iso_year_start(-9999) == -4371587 && iso_year_start(9999) == 2932535 && iso_year_start(10000) == 2932899) by (compute);
+    lemma_iso_start_mono(-9999, y);
+    lemma_iso_step(y);
+    if y <= 9998 { lemma_iso_start_mono(y + 1, 9999); }
+}
+/// spot values of the definition (ISO 8601 / jiff's own doc examples): 2019-12-30 = 2020-W01-1, 2024-03-09 = 2024-W10-6, 1970-01-01 = 1970-W01-4,
+/// 2021-01-03 = 2020-W53-7, 9999-12-31 = 9999-W52-5, -9999-01-01 = -9999-W01-1; 2015, 2020 and 2026 have 53 weeks, 2021, 9999 and -9999 have 52
+#[verifier::spinoff_prover]
+pub proof fn lemma_iso_examples()
+    ensures iso_rd(2020, 1, 1) == rd(2019, 12, 30), iso_rd(2024, 10, 6) == rd(2024, 3, 9), iso_rd(1970, 1, 4) == 0, iso_rd(2020, 53, 7) == rd(2021, 1, 3),
+            iso_rd(9999, 52, 5) == rd(9999, 12, 31), iso_rd(-9999, 1, 1) == rd(-9999, 1, 1),
+            iso_long(2015), iso_long(2020), iso_long(2026), !iso_long(2021), !iso_long(9999), !iso_long(-9999),
+{
+    assert(iso_rd(2020, 1, 1) == rd(2019, 12, 30) && iso_rd(2024, 10, 6) == rd(2024, 3, 9) && iso_rd(1970, 1, 4) == 0 && iso_rd(2020, 53, 7) == rd(2021, 1, 3)) by (compute);
+    assert(iso_rd(9999, 52, 5) == rd(9999, 12, 31) && iso_rd(-9999, 1, 1) == rd(-9999, 1, 1)) by (compute);
+    assert(iso_long(2015) && iso_long(2020) && iso_long(2026) && !iso_long(2021) && !iso_long(9999) && !iso_long(-9999)) by (compute);
+}
+
+// ---------------------------------------------------------------- opaque callees (contracts proved elsewhere: itime.vrs / Kani c01_civil)
+pub open spec fn wdn(w: Weekday) -> int {
+    match w { Weekday::Monday => 1, Weekday::Tuesday => 2, Weekday::Wednesday => 3, Weekday::Thursday => 4, Weekday::Friday => 5, Weekday::Saturday => 6, Weekday::Sunday => 7 }
+}
+impl Weekday {
+    #[verifier::external_body]
+    pub fn from_iweekday(iweekday: IWeekday) -> (r: Weekday) requires 1 <= iweekday.offset <= 7 ensures wdn(r) == iweekday.offset { unimplemented!() }
+    /// days from `other` to `self`, 0..=6
+    #[verifier::external_body]
+    pub fn since_ranged(self, other: Weekday) -> (r: WeekdayZero) ensures r.val == (wdn(self) - wdn(other)) % 7 { unimplemented!() }
+    #[verifier::external_body]
+    pub fn to_monday_zero_offset(self) -> (r: i8) ensures r == wdn(self) - 1 { unimplemented!() }
+    #[verifier::external_body]
+    pub fn to_monday_one_offset(self) -> (r: i8) ensures r == wdn(self) { unimplemented!() }
+    #[verifier::external_body]
+    pub fn to_monday_zero_offset_ranged(self) -> (r: WeekdayZero) ensures r.val == wdn(self) - 1 { unimplemented!() }
+}
+impl IEpochDay {
+    /// contract of itime.vrs
+    #[verifier::external_body]
+    pub fn weekday(&self) -> (r: IWeekday) requires -2147483000 <= self.epoch_day <= 2147483000 ensures r.offset == wd(self.epoch_day as int) { unimplemented!() }
+}
+/// The one date outside -9999-01-01..=9999-12-31 that this code constructs and queries: 10000-01-04
+/// (`Date::iso_week_date` asks for the first day of ISO year `year + 1` of every date of Gregorian year 9999 that is not before 9999-W01-1).
+pub open spec fn ymd_x(y: int, m: int, d: int) -> bool { y == 10000 && m == 1 && d == 4 }
+impl Date {
+    pub open spec fn wf(&self) -> bool { in_range_ymd(self.year.val as int, self.month.val as int, self.day.val as int) }
+    pub open spec fn rd(&self) -> int { rd(self.year.val as int, self.month.val as int, self.day.val as int) }
+    /// wf, or the extra date 10000-01-04
+    pub open spec fn wf_x(&self) -> bool { self.wf() || ymd_x(self.year.val as int, self.month.val as int, self.day.val as int) }
+    #[verifier::external_body]
+    pub fn to_unix_epoch_day(self) -> (r: UnixEpochDay) requires self.wf_x() ensures r.val == self.rd() { unimplemented!() }
+    #[verifier::external_body]
+    pub fn from_unix_epoch_day(epoch_day: UnixEpochDay) -> (r: Date) requires in_UnixEpochDay(epoch_day.val as int) ensures r.wf() && r.rd() == epoch_day.val { unimplemented!() }
+    #[verifier::external_body]
+    pub fn weekday(self) -> (r: Weekday) requires self.wf_x() ensures wdn(r) == wd(self.rd()) { unimplemented!() }
+    #[verifier::external_body]
+    pub fn in_leap_year(self) -> (r: bool) ensures r == is_leap(self.year.val as int) { unimplemented!() }
+    /// Ok iff (year, month, day) is a Gregorian date (the arguments' types carry year in -9999..=9999, month in 1..=12, day in 1..=31)
+    #[verifier::external_body]
+    pub fn new_ranged(year: Year, month: Month, day: Day) -> (r: Result<Date, Error>)
+        requires (in_Year(year.val as int) && 1 <= month.val <= 12 && 1 <= day.val <= 31) || ymd_x(year.val as int, month.val as int, day.val as int),
+        ensures r.is_ok() <==> day.val <= dim(year.val as int, month.val as int),
+                r.is_ok() ==> r.unwrap().year == year && r.unwrap().month == month && r.unwrap().day == day,
+    { unimplemented!() }
+}
+impl ISOWeekDate {
+    /// type invariant: a week date that exists and denotes a day of the supported range
+    pub open spec fn wf(&self) -> bool { iso_valid(self.year.val as int, self.week.val as int, wdn(self.weekday)) }
+    /// the day it denotes
+    pub open spec fn rd(&self) -> int { iso_rd(self.year.val as int, self.week.val as int, wdn(self.weekday)) }
 }
 
 // ==== extracted from /repo ====
-impl Repr {
-// @fn Repr::utc @src src/tz/timezone.rs:2048
-#[verifier::spinoff_prover]
+#[derive(Clone, Copy, Debug, Eq, PartialEq, Structural)]
 
-        pub fn utc() -> (r: Repr)
-    ensures
-        r.ptr.a() & Repr::BITS == Repr::UTC,
-{
-            let ptr = without_provenance(Repr::UTC);
-            assert(1usize & 7usize == 1usize) by (bit_vector);
 
-            Repr { ptr }
-        }
+pub enum Weekday {
+    Monday = 1,
+    Tuesday = 2,
+    Wednesday = 3,
+    Thursday = 4,
+    Friday = 5,
+    Saturday = 6,
+    Sunday = 7,
 }
 
-impl Repr {
-// @fn Repr::unknown @src src/tz/timezone.rs:2055
-#[verifier::spinoff_prover]
-
-        pub fn unknown() -> (r: Repr)
-    ensures
-        r.ptr.a() & Repr::BITS == Repr::UNKNOWN,
-{
-            let ptr = without_provenance(Repr::UNKNOWN);
-            assert(2usize & 7usize == 2usize) by (bit_vector);
-
-            Repr { ptr }
-        }
+#[derive(Clone, Copy, Debug, Eq, PartialEq, Structural)]
+pub struct IEpochDay {
+    pub epoch_day: i32,
 }
 
-impl Repr {
-// @fn Repr::fixed @src src/tz/timezone.rs:2062
+impl IEpochDay {
+    pub open spec fn cmp_spec(self, o: IEpochDay) -> int {
+        if self.epoch_day < o.epoch_day { -1int } else if self.epoch_day > o.epoch_day { 1int } else { 0int }
+    }
+    pub fn cmp_exec(&self, o: &IEpochDay) -> (r: i8) ensures r as int == self.cmp_spec(*o), -1 <= r <= 1 {
+        if self.epoch_day < o.epoch_day { -1 } else if self.epoch_day > o.epoch_day { 1 } else { 0 }
+    }
+}
+impl vstd::std_specs::cmp::PartialOrdSpecImpl for IEpochDay {
+    open spec fn obeys_partial_cmp_spec() -> bool { true }
+    open spec fn partial_cmp_spec(&self, other: &IEpochDay) -> Option<core::cmp::Ordering> {
+        Some(if self.cmp_spec(*other) < 0 { core::cmp::Ordering::Less } else if self.cmp_spec(*other) > 0 { core::cmp::Ordering::Greater } else { core::cmp::Ordering::Equal })
+    }
+}
+impl core::cmp::PartialOrd for IEpochDay {
+    fn partial_cmp(&self, other: &IEpochDay) -> (r: Option<core::cmp::Ordering>) {
+        let c = self.cmp_exec(other);
+        if c < 0 { Some(core::cmp::Ordering::Less) } else if c > 0 { Some(core::cmp::Ordering::Greater) } else { Some(core::cmp::Ordering::Equal) }
+    }
+}
+
+#[derive(Clone, Copy, Debug, Eq, PartialEq, Structural)]
+pub struct IWeekday {
+    
+    pub offset: i8,
+}
+
+impl IWeekday {
+    pub open spec fn cmp_spec(self, o: IWeekday) -> int {
+        if self.offset < o.offset { -1int } else if self.offset > o.offset { 1int } else { 0int }
+    }
+    pub fn cmp_exec(&self, o: &IWeekday) -> (r: i8) ensures r as int == self.cmp_spec(*o), -1 <= r <= 1 {
+        if self.offset < o.offset { -1 } else if self.offset > o.offset { 1 } else { 0 }
+    }
+}
+impl vstd::std_specs::cmp::PartialOrdSpecImpl for IWeekday {
+    open spec fn obeys_partial_cmp_spec() -> bool { true }
+    open spec fn partial_cmp_spec(&self, other: &IWeekday) -> Option<core::cmp::Ordering> {
+        Some(if self.cmp_spec(*other) < 0 { core::cmp::Ordering::Less } else if self.cmp_spec(*other) > 0 { core::cmp::Ordering::Greater } else { core::cmp::Ordering::Equal })
+    }
+}
+impl core::cmp::PartialOrd for IWeekday {
+    fn partial_cmp(&self, other: &IWeekday) -> (r: Option<core::cmp::Ordering>) {
+        let c = self.cmp_exec(other);
+        if c < 0 { Some(core::cmp::Ordering::Less) } else if c > 0 { Some(core::cmp::Ordering::Greater) } else { Some(core::cmp::Ordering::Equal) }
+    }
+}
+
+#[derive(Clone, Copy)]
+pub struct Date {
+    pub year: Year,
+    pub month: Month,
+    pub day: Day,
+}
+
+impl Date {
+// @fn Date::year_ranged @src src/civil/date.rs:2142
 #[verifier::spinoff_prover]
 
-        pub fn fixed(offset: Offset) -> (r: Repr)
+    pub fn year_ranged(self) -> (r: Year)
+    ensures
+        r == self.year,
+{
+        self.year
+    }
+}
+
+impl Date {
+// @fn Date::iso_week_date @src src/civil/date.rs:1131
+#[verifier::spinoff_prover]
+
+    pub fn iso_week_date(self) -> (r: ISOWeekDate)
     requires
-        offset.wf(),
+        self.wf(),
     ensures
-        r.ptr.a() == enc_fixed(offset.s), r.ptr.a() & Repr::BITS == Repr::FIXED,
+        r.wf(),
+    in_iso_year(self.rd(), r.year.val as int),
+    r.week.val == iso_week_of(self.rd(), r.year.val as int),
+    wdn(r.weekday) == wd(self.rd()),
+    r.rd() == self.rd(),
 {
-            proof { lemma_fixed_roundtrip(offset.s); }
-
-            let seconds = offset.seconds_ranged().get_unchecked();
-            
-            let shifted = (seconds.checked_shl(4)).unwrap();
-            assert(usize::MAX >= 4_294_967_295) by { vstd::layout::unsigned_int_max_values(); }
-            
-            let ptr = without_provenance((shifted as usize) | Repr::FIXED);
-            Repr { ptr }
+        hide(rd); hide(wd); hide(iso_year_start);
+        proof {
+            let y = self.year.val as int; let m = self.month.val as int; let d = self.day.val as int;
+            lemma_rd_bounds(y, m, d);
+            lemma_iso_year_near(y, m, d);
+            lemma_iso_range(y, 1, 1);
+            if y < 9999 { lemma_rd_bounds(y + 1, 1, 4); }
+            if y > -9999 { lemma_rd_bounds(y - 1, 12, 31); }
+            lemma_rd_bounds(y, 1, 1); lemma_rd_bounds(y, 1, 4);
+            assert(rd(y, 1, 4) == rd(y, 1, 1) + 3) by { reveal(rd); }
+            lemma_monday(self.rd());
         }
+
+        let days = NoUnits32::rfrom(self.to_unix_epoch_day());
+        let year = NoUnits32::rfrom(self.year_ranged());
+        let week_start = { let days = days; let year = year;
+            let mut week_start =
+                NoUnits32::rfrom(iso_week_start_from_year(year.rinto()));
+            if days < week_start {
+                week_start = NoUnits32::rfrom(iso_week_start_from_year(
+                    (year - C(1)).rinto(),
+                ));
+            } else {
+                let next_year_week_start = NoUnits32::rfrom(
+                    iso_week_start_from_year((year + C(1)).rinto()),
+                );
+                if days >= next_year_week_start {
+                    week_start = next_year_week_start;
+                }
+            }
+            week_start
+        };
+
+                proof {
+            let e = self.rd();
+            let y = self.year.val as int;
+            let yy = if e < iso_year_start(y) { y - 1 } else if e >= iso_year_start(y + 1) { y + 1 } else { y };
+            assert(week_start.val == iso_year_start(yy) && in_iso_year(e, yy));
+            lemma_iso_of_day(e, yy);
+            lemma_iso_step(yy);
+            // week_start + 3, the Thursday of week 1, is one of January 1st..7th of yy
+            assert(-9999 <= yy <= 9999);
+            lemma_iso_start(yy); lemma_rd_bounds(yy, 1, 1); lemma_rd_bounds(yy, 1, 7);
+            assert(rd(yy, 1, 7) == rd(yy, 1, 1) + 6) by { reveal(rd); }
+            // the year the code reports is that of the Thursday of week 1, day number week_start + 3
+            assert forall|y2: int, m2: int, d2: int| valid_ymd(y2, m2, d2) && #[trigger] rd(y2, m2, d2) == iso_year_start(yy) + 3 implies y2 == yy by {
+                lemma_year_of_first_thursday(y2, m2, d2, yy);
+            }
+        }
+let weekday = Weekday::from_iweekday(
+            IEpochDay { epoch_day: days.get() }.weekday(),
+        );
+        let week = ((days - week_start) / C(7)) + C(1);
+
+        let unix_epoch_day = week_start
+            + NoUnits32::rfrom(
+                Weekday::Thursday.since_ranged(Weekday::Monday),
+            );
+        let year =
+            Date::from_unix_epoch_day(unix_epoch_day.rinto()).year_ranged();
+        ISOWeekDate::new_ranged(year, week, weekday)
+            .expect("all Dates infallibly convert to ISOWeekDates")
+    }
 }
 
-impl Repr {
-// @fn Repr::get_fixed @src src/tz/timezone.rs:2132
+impl Date {
+// @fn Date::from_iso_week_date @src src/civil/date.rs:341
 #[verifier::spinoff_prover]
 
-        pub fn get_fixed(&self) -> (r: Offset)
+    pub fn from_iso_week_date(weekdate: ISOWeekDate) -> (r: Date)
     requires
-        exists|s: i32| -93599 <= s <= 93599 && self.ptr.a() == #[trigger] enc_fixed(s),
+        weekdate.wf(),
     ensures
-        forall|s: i32| -93599 <= s <= 93599 && self.ptr.a() == #[trigger] enc_fixed(s) ==> r.s == s, r.wf(),
+        r.wf(), r.rd() == weekdate.rd(),
 {
-            proof {
-                let s = choose|s: i32| -93599 <= s <= 93599 && self.ptr.a() == #[trigger] enc_fixed(s);
-                lemma_fixed_roundtrip(s);
-                assert forall|s2: i32| -93599 <= s2 <= 93599 && self.ptr.a() == #[trigger] enc_fixed(s2) implies s2 == s by { lemma_fixed_roundtrip(s2); }
-            }
+    proof {
+        let y = weekdate.year.val as int; let w = weekdate.week.val as int; let d = wdn(weekdate.weekday);
+        lemma_iso_start(y); lemma_iso_range(y, w, d); lemma_rd_bounds(y, 1, 1);
+    }
 
-            
-            let addr = self.ptr.addr();
-            
-            
-            let seconds = SpanZoneOffset::new_unchecked((addr as i32) >> 4);
-            Offset::from_seconds_ranged(seconds)
-        }
+        let mut days = iso_week_start_from_year(weekdate.year_ranged());
+        let year = NoUnits16::rfrom(weekdate.year_ranged());
+        let week = NoUnits16::rfrom(weekdate.week_ranged());
+        let weekday = NoUnits16::rfrom(
+            weekdate.weekday().to_monday_zero_offset_ranged(),
+        );
+        let verif_vm = { let year = year; let week = week; let weekday = weekday;
+                
+                
+                
+                
+                
+                
+                
+                
+                
+                
+                
+                if year == C(9999) {
+                    if week >= C(52) {
+                        [week.min(C(52)), weekday.min(C(4))]
+                    } else {
+                        [week, weekday]
+                    }
+                } else {
+                    [week, weekday]
+                }
+            }; let week = verif_vm[0]; let weekday = verif_vm[1];
+        days += (UnixEpochDay::rfrom(week) - C(1)) * C(7);
+        days += weekday;
+        Date::from_unix_epoch_day(days)
+    }
 }
 
-impl Repr {
-// @fn Repr::is_unknown @src src/tz/timezone.rs:2144
+// @fn iso_week_start_from_year @src src/civil/date.rs:3598
 #[verifier::spinoff_prover]
-
-        pub fn is_unknown(&self) -> (r: bool)
-    ensures
-        r == (self.ptr.a() & Repr::BITS == Repr::UNKNOWN),
-{
-            self.tag() == Repr::UNKNOWN
-        }
-}
-
-impl Repr {
-// @fn Repr::tag @src src/tz/timezone.rs:2222
-#[verifier::spinoff_prover]
-
-        pub fn tag(&self) -> (r: usize)
-    ensures
-        r == self.ptr.a() & Repr::BITS,
-{
-            
-            {
-                self.ptr.addr() & Repr::BITS
-            }
-        }
-}
-
-impl Repr {
-// @fn <Repr as Clone>::clone @src src/tz/timezone.rs:2283
-#[verifier::spinoff_prover]
-
-        pub fn clone(&self) -> (r: Repr)
+pub fn iso_week_start_from_year(year: ISOYear) -> (r: UnixEpochDay)
     requires
-        self.rwf(),
+        -9999 <= year.val <= 10000,
     ensures
-        r.ptr.a() == self.ptr.a(),
+        r.val == iso_year_start(year.val as int), year.val <= 9999 ==> in_UnixEpochDay(r.val as int),
 {
-            proof {
-                let a = self.ptr.a();
-                if a & 7usize == 4 {
-                    let base = choose|base: usize| base % 8 == 0 && #[trigger] is_live_arc::<TzifOwned>(base) && a == base + 4;
-                    lemma_untag(base, 4, a);
-                }
-                if a & 7usize == 5 {
-                    let base = choose|base: usize| base % 8 == 0 && #[trigger] is_live_arc::<PosixTimeZoneOwned>(base) && a == base + 5;
-                    lemma_untag(base, 5, a);
-                }
-            }
+    proof {
+        let y = year.val as int;
+        lemma_monday(rd(y, 1, 4)); lemma_iso_start(y);
+        if y <= 9999 { lemma_rd_bounds(y, 1, 1); } else { lemma_rd_epoch(); lemma_rd_year(9999); lemma_rd_succ(9999, 12, 31); }
+    }
 
-            
-            
-            match self.tag() {
-                
-                Repr::UTC
-                | Repr::UNKNOWN
-                | Repr::FIXED
-                | Repr::STATIC_TZIF => Repr { ptr: self.ptr },
-                
-                Repr::ARC_TZIF => {
-                    let ptr = self.ptr.map_addr(|addr: usize| -> (r: usize) ensures r == addr & !Repr::BITS { addr & !Repr::BITS });
-                    
-                    
-                    
-                    
-                    
-                    {
-                        Arc::increment_strong_count(ptr.cast::<TzifOwned>());
-                    }
-                    Repr { ptr: self.ptr }
-                }
-                
-                Repr::ARC_POSIX => {
-                    let ptr = self.ptr.map_addr(|addr: usize| -> (r: usize) ensures r == addr & !Repr::BITS { addr & !Repr::BITS });
-                    
-                    
-                    
-                    
-                    
-                    {
-                        Arc::increment_strong_count(
-                            ptr.cast::<PosixTimeZoneOwned>(),
-                        );
-                    }
-                    Repr { ptr: self.ptr }
-                }
-                _ => {
-                    { let verif_da: bool = false; assert(verif_da); };
-                    
-                    
-                    {
-                        return vstd::pervasive::unreached();
-                    }
-                }
-            }
-        }
+    
+    
+    
+    let date_in_first_week =
+        Date::new_ranged(year.rinto(), C(1).rinto(), C(4).rinto())
+            .expect("Jan 4 is valid for all valid years");
+    
+    
+    
+    let diff_from_monday =
+        date_in_first_week.weekday().since_ranged(Weekday::Monday);
+    date_in_first_week.to_unix_epoch_day() - diff_from_monday
 }
 
-impl Repr {
-// @fn <Repr as Drop>::drop @src src/tz/timezone.rs:2334
+#[derive(Clone, Copy)]
+pub struct ISOWeekDate {
+    pub year: ISOYear,
+    pub week: ISOWeek,
+    pub weekday: Weekday,
+}
+
+impl ISOWeekDate {
+// @fn ISOWeekDate::new @src src/civil/iso_week_date.rs:193
 #[verifier::spinoff_prover]
 
-        pub fn drop(&mut self)
-    requires
-        old(self).rwf(),
+    pub fn new(
+        year: i16,
+        week: i8,
+        weekday: Weekday,
+    ) -> (r: Result<ISOWeekDate, Error>)
+    ensures
+        r.is_ok() <==> iso_valid(year as int, week as int, wdn(weekday)),
+    r.is_ok() ==> r.unwrap().year.val == year && r.unwrap().week.val == week && r.unwrap().weekday == weekday,
 {
-            proof {
-                let a = self.ptr.a();
-                if a & 7usize == 4 {
-                    let base = choose|base: usize| base % 8 == 0 && #[trigger] is_live_arc::<TzifOwned>(base) && a == base + 4;
-                    lemma_untag(base, 4, a);
-                }
-                if a & 7usize == 5 {
-                    let base = choose|base: usize| base % 8 == 0 && #[trigger] is_live_arc::<PosixTimeZoneOwned>(base) && a == base + 5;
-                    lemma_untag(base, 5, a);
-                }
-            }
+        let year = verif_try_new_ISOYear(year as i64)?;
+        let week = verif_try_new_ISOWeek(week as i64)?;
+        ISOWeekDate::new_ranged(year, week, weekday)
+    }
+}
 
-            
-            
-            match self.tag() {
-                
-                Repr::UTC
-                | Repr::UNKNOWN
-                | Repr::FIXED
-                | Repr::STATIC_TZIF => {}
-                
-                Repr::ARC_TZIF => {
-                    let ptr = self.ptr.map_addr(|addr: usize| -> (r: usize) ensures r == addr & !Repr::BITS { addr & !Repr::BITS });
-                    
-                    
-                    
-                    
-                    
-                    {
-                        Arc::decrement_strong_count(ptr.cast::<TzifOwned>());
-                    }
-                }
-                
-                Repr::ARC_POSIX => {
-                    let ptr = self.ptr.map_addr(|addr: usize| -> (r: usize) ensures r == addr & !Repr::BITS { addr & !Repr::BITS });
-                    
-                    
-                    
-                    
-                    
-                    {
-                        Arc::decrement_strong_count(
-                            ptr.cast::<PosixTimeZoneOwned>(),
-                        );
-                    }
-                }
-                _ => {
-                    { let verif_da: bool = false; assert(verif_da); };
-                    
-                    
-                    {
-                        return vstd::pervasive::unreached();
-                    }
-                }
-            }
+impl ISOWeekDate {
+// @fn ISOWeekDate::new_ranged @src src/civil/iso_week_date.rs:650
+#[verifier::spinoff_prover]
+
+    pub fn new_ranged(
+        year: impl RInto<ISOYear>,
+        week: impl RInto<ISOWeek>,
+        weekday: Weekday,
+    ) -> (r: Result<ISOWeekDate, Error>)
+    requires
+        year.rinto_req(), week.rinto_req(), in_ISOYear(year.rinto_spec().val as int), in_ISOWeek(week.rinto_spec().val as int),
+    ensures
+        r.is_ok() <==> iso_valid(year.rinto_spec().val as int, week.rinto_spec().val as int, wdn(weekday)),
+    r.is_ok() ==> r.unwrap().year == year.rinto_spec() && r.unwrap().week == week.rinto_spec() && r.unwrap().weekday == weekday,
+{
+        let year = year.rinto();
+        let week = week.rinto();
+    proof {
+        let y = year.val as int; let w = week.val as int;
+        lemma_iso_step(y);
+        if w <= iso_weeks(y) { lemma_iso_range(y, w, wdn(weekday)); }
+        assert(!iso_long(9999)) by { lemma_iso_range(9999, 1, 1); }
+    }
+
+        
+        
+        
+        
+        
+        
+        
+        
+        { let verif_da: bool = (verif_MIN_Year()) == (verif_MIN_ISOYear()); assert(verif_da); };
+        { let verif_da: bool = (verif_MAX_Year()) == (verif_MAX_ISOYear()); assert(verif_da); };
+        if week == C(53) && !is_long_year(year) {
+            return Err(verif_err());
         }
+        
+        
+        
+        
+        
+        
+        
+        
+        if year == verif_MAX_SELF_ISOYear()
+            && week == C(52)
+            && weekday.to_monday_zero_offset()
+                > Weekday::Friday.to_monday_zero_offset()
+        {
+            return Err(verif_error_range(
+                "weekday",
+                weekday.to_monday_one_offset(),
+                Weekday::Monday.to_monday_one_offset(),
+                Weekday::Friday.to_monday_one_offset(),
+            ));
+        }
+        Ok(ISOWeekDate { year, week, weekday })
+    }
+}
+
+impl ISOWeekDate {
+// @fn ISOWeekDate::date @src src/civil/iso_week_date.rs:636
+#[verifier::spinoff_prover]
+
+    pub fn date(self) -> (r: Date)
+    requires
+        self.wf(),
+    ensures
+        r.wf(), r.rd() == self.rd(),
+{
+        Date::from_iso_week_date(self)
+    }
+}
+
+impl ISOWeekDate {
+// @fn ISOWeekDate::year_ranged @src src/civil/iso_week_date.rs:724
+#[verifier::spinoff_prover]
+
+    pub fn year_ranged(self) -> (r: ISOYear)
+    ensures
+        r == self.year,
+{
+        self.year
+    }
+}
+
+impl ISOWeekDate {
+// @fn ISOWeekDate::week_ranged @src src/civil/iso_week_date.rs:729
+#[verifier::spinoff_prover]
+
+    pub fn week_ranged(self) -> (r: ISOWeek)
+    ensures
+        r == self.week,
+{
+        self.week
+    }
+}
+
+impl ISOWeekDate {
+// @fn ISOWeekDate::weekday @src src/civil/iso_week_date.rs:298
+#[verifier::spinoff_prover]
+
+    pub fn weekday(self) -> (r: Weekday)
+    ensures
+        r == self.weekday,
+{
+        self.weekday
+    }
+}
+
+impl ISOWeekDate {
+// @fn ISOWeekDate::year @src src/civil/iso_week_date.rs:246
+#[verifier::spinoff_prover]
+
+    pub fn year(self) -> (r: i16)
+    ensures
+        r == self.year.val,
+{
+        self.year_ranged().get()
+    }
+}
+
+impl ISOWeekDate {
+// @fn ISOWeekDate::week @src src/civil/iso_week_date.rs:271
+#[verifier::spinoff_prover]
+
+    pub fn week(self) -> (r: i8)
+    ensures
+        r == self.week.val,
+{
+        self.week_ranged().get()
+    }
+}
+
+impl ISOWeekDate {
+// @fn ISOWeekDate::from_date @src src/civil/iso_week_date.rs:225
+#[verifier::spinoff_prover]
+
+    pub fn from_date(date: Date) -> (r: ISOWeekDate)
+    requires
+        date.wf(),
+    ensures
+        r.wf(),
+    in_iso_year(date.rd(), r.year.val as int),
+    r.week.val == iso_week_of(date.rd(), r.year.val as int),
+    wdn(r.weekday) == wd(date.rd()),
+    r.rd() == date.rd(),
+{
+        date.iso_week_date()
+    }
+}
+
+impl ISOWeekDate {
+// @fn ISOWeekDate::first_of_week @src src/civil/iso_week_date.rs:336
+#[verifier::spinoff_prover]
+
+    pub fn first_of_week(self) -> (r: Result<ISOWeekDate, Error>)
+    requires
+        self.wf(),
+    ensures
+        r.is_ok(),
+    r.is_ok() <==> iso_valid(self.year.val as int, self.week.val as int, 1),
+    r.is_ok() ==> r.unwrap().year == self.year && r.unwrap().week == self.week && r.unwrap().weekday == Weekday::Monday,
+{
+    proof { lemma_iso_range(self.year.val as int, self.week.val as int, wdn(self.weekday)); lemma_iso_range(self.year.val as int, self.week.val as int, 1); }
+
+        
+        
+        
+        
+        
+        ISOWeekDate::new_ranged(
+            self.year_ranged(),
+            self.week_ranged(),
+            Weekday::Monday,
+        )
+    }
+}
+
+impl ISOWeekDate {
+// @fn ISOWeekDate::last_of_week @src src/civil/iso_week_date.rs:382
+#[verifier::spinoff_prover]
+
+    pub fn last_of_week(self) -> (r: Result<ISOWeekDate, Error>)
+    requires
+        self.wf(),
+    ensures
+        r.is_ok() <==> iso_valid(self.year.val as int, self.week.val as int, 7),
+    r.is_ok() <==> !(self.year.val == 9999 && self.week.val == 52),
+    r.is_ok() ==> r.unwrap().year == self.year && r.unwrap().week == self.week && r.unwrap().weekday == Weekday::Sunday,
+{
+    proof { lemma_iso_range(self.year.val as int, self.week.val as int, 7); }
+
+        
+        
+        
+        ISOWeekDate::new_ranged(
+            self.year_ranged(),
+            self.week_ranged(),
+            Weekday::Sunday,
+        )
+    }
+}
+
+impl ISOWeekDate {
+// @fn ISOWeekDate::first_of_year @src src/civil/iso_week_date.rs:427
+#[verifier::spinoff_prover]
+
+    pub fn first_of_year(self) -> (r: Result<ISOWeekDate, Error>)
+    requires
+        self.wf(),
+    ensures
+        r.is_ok(),
+    r.is_ok() <==> iso_valid(self.year.val as int, 1, 1),
+    r.is_ok() ==> r.unwrap().year == self.year && r.unwrap().week.val == 1 && r.unwrap().weekday == Weekday::Monday,
+{
+    proof { lemma_iso_range(self.year.val as int, 1, 1); }
+
+        
+        
+        
+        
+        ISOWeekDate::new_ranged(self.year_ranged(), C(1), Weekday::Monday)
+    }
+}
+
+impl ISOWeekDate {
+// @fn ISOWeekDate::last_of_year @src src/civil/iso_week_date.rs:476
+#[verifier::spinoff_prover]
+
+    pub fn last_of_year(self) -> (r: Result<ISOWeekDate, Error>)
+    requires
+        self.wf(),
+    ensures
+        r.is_ok() <==> iso_valid(self.year.val as int, iso_weeks(self.year.val as int), 7),
+    r.is_ok() <==> self.year.val != 9999,
+    r.is_ok() ==> r.unwrap().year == self.year && r.unwrap().week.val == iso_weeks(self.year.val as int) && r.unwrap().weekday == Weekday::Sunday,
+{
+    proof { lemma_iso_range(self.year.val as int, iso_weeks(self.year.val as int), 7); }
+
+        
+        
+        
+        let week = if self.in_long_year() {
+            ISOWeek::verif_N(53)
+        } else {
+            ISOWeek::verif_N(52)
+        };
+        ISOWeekDate::new_ranged(self.year_ranged(), week, Weekday::Sunday)
+    }
+}
+
+impl ISOWeekDate {
+// @fn ISOWeekDate::days_in_year @src src/civil/iso_week_date.rs:506
+#[verifier::spinoff_prover]
+
+    pub fn days_in_year(self) -> (r: i16)
+    requires
+        in_ISOYear(self.year.val as int),
+    ensures
+        r == iso_year_start(self.year.val + 1) - iso_year_start(self.year.val as int),
+{
+    proof { lemma_iso_step(self.year.val as int); }
+
+        if self.in_long_year() {
+            371
+        } else {
+            364
+        }
+    }
+}
+
+impl ISOWeekDate {
+// @fn ISOWeekDate::weeks_in_year @src src/civil/iso_week_date.rs:532
+#[verifier::spinoff_prover]
+
+    pub fn weeks_in_year(self) -> (r: i8)
+    requires
+        in_ISOYear(self.year.val as int),
+    ensures
+        r == iso_weeks(self.year.val as int),
+{
+        if self.in_long_year() {
+            53
+        } else {
+            52
+        }
+    }
+}
+
+impl ISOWeekDate {
+// @fn ISOWeekDate::in_long_year @src src/civil/iso_week_date.rs:557
+#[verifier::spinoff_prover]
+
+    pub fn in_long_year(self) -> (r: bool)
+    requires
+        in_ISOYear(self.year.val as int),
+    ensures
+        r == iso_long(self.year.val as int),
+{
+        is_long_year(self.year_ranged())
+    }
+}
+
+// @fn is_long_year @src src/civil/iso_week_date.rs:835
+#[verifier::spinoff_prover]
+pub fn is_long_year(year: ISOYear) -> (r: bool)
+    requires
+        in_ISOYear(year.val as int),
+    ensures
+        r == iso_long(year.val as int),
+{
+    proof { lemma_iso_step(year.val as int); }
+
+    
+    let last = Date::new_ranged(year.rinto(), C(12).rinto(), C(31).rinto())
+        .expect("last day of year is always valid");
+    let weekday = last.weekday();
+    weekday == Weekday::Thursday
+        || (last.in_leap_year() && weekday == Weekday::Friday)
 }
 
 // ==== end extracted ====
 
-
+// ---------------------------------------------------------------- C01 round trips: harnesses composing the contracts above (no jiff code in here)
+/// date -> ISO week date -> date is the identity, for every date
+pub fn verif_roundtrip_date(d: Date) -> (r: Date)
+    requires d.wf(),
+    ensures r.year.val == d.year.val && r.month.val == d.month.val && r.day.val == d.day.val,
+{
+    let w = d.iso_week_date();
+    let r = w.date();
+    proof { lemma_rd_inj(r.year.val as int, r.month.val as int, r.day.val as int, d.year.val as int, d.month.val as int, d.day.val as int); }
+    r
+}
+/// (year, week, weekday) -> ISOWeekDate -> date -> ISO week date gives the triple back, for every triple `ISOWeekDate::new` accepts
+/// (and it accepts exactly the week dates that exist and denote a supported day)
+pub fn verif_roundtrip_iso(year: i16, week: i8, weekday: Weekday) -> (r: Option<ISOWeekDate>)
+    ensures r.is_some() <==> iso_valid(year as int, week as int, wdn(weekday)),
+            r.is_some() ==> r.unwrap().year.val == year && r.unwrap().week.val == week && r.unwrap().weekday == weekday,
+{
+    match ISOWeekDate::new(year, week, weekday) {
+        Ok(w) => {
+            let d = w.date();
+            let w2 = d.iso_week_date();
+            proof {
+                lemma_iso_rd_in_year(year as int, week as int, wdn(weekday));
+                lemma_iso_year_unique(d.rd(), w2.year.val as int, year as int);
+            }
+            Some(w2)
+        }
+        Err(_e) => None,
+    }
+}
 } // verus!
 fn main() {}
